@@ -248,6 +248,8 @@ type RestrictedPrefixPermutationIterator struct {
 
 	l []int
 	u []int
+
+	done bool //Set once every permutation has been returned.
 }
 
 //RestrictedPrefixPermutations returns an iterator which iterates over all permutations a_1 a_2 ... a_n of {0, ..., n-1} which pass the tests f([]int{a_1}), f([]int{a_1,a_2}) ... f([]int{a_1,...,a_n}).
@@ -268,6 +270,9 @@ func RestrictedPrefixPermutations(n int, f func([]int) bool) *RestrictedPrefixPe
 func (iter *RestrictedPrefixPermutationIterator) Next() bool {
 	//This is a copy of Algorithm X in 7.2.1.2 in Art of Computer Programming, Volume 4a.
 	//The flow control is quite complicated so removing the goto statements is a lot of work and would end up duplicating a lot of logic. This is only compounded by needing two entry points, one for the first call of Next() and one for every other call.
+	if iter.done {
+		return false
+	}
 	n := iter.n
 	k := n - 1
 	p := 0
@@ -315,6 +320,7 @@ x5:
 x6:
 	k--
 	if k < 0 {
+		iter.done = true
 		return false
 	}
 	p = iter.u[k]
